@@ -688,6 +688,16 @@ class Zone(dns.transaction.TransactionManager):
             else:
                 txt_is_utf8 = style.txt_is_utf8
             style = style.replace(idna_codec=idna_codec, txt_is_utf8=txt_is_utf8)
+        if (
+            style.want_generic
+            and style.origin is None
+            and self.relativize
+            and self.origin is not None
+        ):
+            # Generic RDATA is made from the wire form, which needs the origin
+            # for the relative names of a relativized zone.  The names are
+            # already relative, so this does not change how they are written.
+            style = style.replace(origin=self.origin, relativize=True)
         if isinstance(f, str):
             cm: contextlib.AbstractContextManager = open(f, "wb")
         else:
